@@ -144,7 +144,7 @@ def judge(op, f, out, writes, res, case):
             got["temperature"] = exp["temperature"]
     ok = True
     for k in exp:
-        if got[k] != exp[k] or type(got[k]) is not type(exp[k]):
+        if got[k] != exp[k] or not isinstance(got[k], type(exp[k])) or (type(exp[k]) is int and isinstance(got[k], bool)):
             res.violation(f"field:{k}", case, f"{op}: device encoded {k}={exp[k]!r}, response says {got[k]!r} (reply fields {f})", exp[k], got[k])
             ok = False
     if r.unparsed_response is None or not r.successful:
